@@ -12,7 +12,7 @@ CHECKS = {
             "Generated instance forests are written by rbx_binary under all three compressions and read back; the decoded DOM is compared, "
             "bit-exactly and under only the normalisations the property names, with an expectation computed from the generated spec through "
             "an independent database resolver. All 3^9 matrices over {-1,0,1} (incl. the 24 bases) are enumerated; a fixed list of large cases (values longer than the reader's 64 Ki pre-allocation caps, > 64 Ki instances of one class, "
-            "> 64 Ki classes) and, through the cfg hook, sweeps of the scalar codecs (all 2^32 inputs in the thorough tier) are run. Every entry point and option chain is exercised as the same codec (to_writer / Serializer, from_reader / Deserializer, "
+            "> 64 Ki classes; tables of 255..65 537 shared strings, up to 20 001 property columns on one class, class / property / instance names of up to 70 000 characters, Tags / Attributes values of up to 65 537 entries, and columns of 1..4 097 smallest values - empty text, empty table, absent option - of every variable-size type) and, through the cfg hook, sweeps of the scalar codecs (all 2^32 inputs in the thorough tier) are run. Every entry point and option chain is exercised as the same codec (to_writer / Serializer, from_reader / Deserializer, "
             "settings in either order), one Serializer / Deserializer value is reused for several files, and one case in eight runs after injected failed saves on the same thread. Sampling elsewhere: absence "
             "of counter-examples among N cases, with label histograms showing the narrow regions were hit.",
             "trusts: proptest, the harness's own resolver over the public reflection types (cross-checked in C16), lz4/zstd crates",
@@ -21,7 +21,7 @@ CHECKS = {
             "property-based round-trip testing (proptest) over the three option pairings, expectation model computed from the spec",
             "Generated forests restricted to XML-supported types and XML-1.0-legal characters (incl. ']]>', markup, CR/LF, whitespace-only) are written "
             "by rbx_xml and read back under default/default, WriteUnknown+ReadUnknown and NoReflection+NoReflection; the decoded DOM is compared with "
-            "an expectation computed from the spec (floats bit-exact unless NaN); a fixed list of large cases (long text / base64 / shared strings / sequences, > 64 Ki instances); from_str / *_default entry points and the three option call chains must agree; DoesNotSerialize properties are a side-check "
+            "an expectation computed from the spec (floats bit-exact unless NaN); a fixed list of large cases (long text / base64 / shared strings / sequences, > 64 Ki instances, and the table / name / smallest-value cases of C01); from_str / *_default entry points and the three option call chains must agree; DoesNotSerialize properties are a side-check "
             "(dropped, or kept as an unknown property, nothing else changes). Sampling: absence of counter-examples among N cases.",
             "trusts: proptest, the harness's database resolver (cross-checked in C16)",
             "DESIGN.md 2/C02"),
@@ -30,21 +30,21 @@ CHECKS = {
             "Every file rbx_binary writes for a generated forest (x3 compressions) is parsed by a reference decoder written from docs/binary.md that "
             "shares no code with rbx_binary; structure (header counts, chunk framing/order/multiplicity, one INST per class, one value per instance per "
             "PROP consuming the chunk exactly, PRNT completeness and children-before-parents, SSTR de-duplication, END chunk) and meaning (classes, "
-            "hierarchy, serialized names, wire types, values) are compared with the spec. Two documented-vs-implemented layout disagreements are open findings.",
+            "hierarchy, serialized names, wire types, values) are compared with the spec; a fixed list of large files (arrays longer than any staging block, big tables, long names, columns of smallest values) goes through the same decoder. Two documented-vs-implemented layout disagreements are open findings.",
             "trusts: docs/binary.md as the specification (points where it is silent or self-contradictory are listed in evidence.assumptions), lz4/zstd block decompression",
             "DESIGN.md 2/C03"),
     "C04": ("exploration",
             "differential testing of the reader against an independent encoder written from docs/binary.md, driven by proptest-generated encoding plans",
             "Generated logical DOMs are rendered by a reference encoder written from docs/binary.md under a generated plan that varies every degree of "
             "freedom the document leaves open (per-chunk compression, INST/PROP order, class ids, sparse referents, PRNT order, META, unknown chunks, "
-            "service-format INST, narrower legacy numeric columns, truncated / unknown-type PROP chunks); rbx_binary must decode each to the logical DOM.",
+            "service-format INST, SSTR tables with zero hash fields / duplicate and unreferenced entries / zero entries, narrower legacy numeric columns, truncated / unknown-type PROP chunks); rbx_binary must decode each to the logical DOM.",
             "trusts: docs/binary.md, the implementation's UniqueId/Content.SourceTypes layout (disagreement with the document reported under C03)",
             "DESIGN.md 2/C04"),
     "C05": ("exploration",
             "differential testing both ways against docs/xml.md: an independent XML parser (expat) + value decoder for the writer, an independent document generator for the reader; proptest-generated DOMs and document plans",
             "Writer: every document rbx_xml emits for a generated forest is parsed by Python's expat and decoded by a value decoder written from docs/xml.md (floats decoded exactly from their decimal text); "
             "MUST-level structure and the recovered values are compared with the spec. Reader: generated logical DOMs are rendered under generated document plans by a generator written from docs/xml.md and must "
-            "decode to the DOM they describe. Raw CR in text and non-finite CFrame components spelled inf/NaN are open findings.",
+            "decode to the DOM they describe. The writer is also judged on a fixed list of large documents (values over 64 KiB / 1 MiB, 257-entry tables, 70 000-character names, columns of empty values). Raw CR in text and non-finite CFrame components spelled inf/NaN are open findings.",
             "trusts: docs/xml.md (MUST-level rules only), Python's xml.etree/expat as the conforming XML parser",
             "DESIGN.md 2/C05"),
     "C06": ("exploration",
@@ -62,11 +62,11 @@ CHECKS = {
             "trusts: process re-execution as the source of different RandomState seeds",
             "DESIGN.md 2/C07"),
     "C08": ("exploration",
-            "metamorphic + round-trip property testing over generated same-class groups and mixed-class families (sibling-order permutations, independence from siblings and from other classes); exhaustive list of inherited defaults",
+            "metamorphic + round-trip property testing over generated same-class groups and mixed-class families (sibling-order permutations, independence from siblings and from other classes); exhaustive lists of inherited and of all database defaults",
             "Generated groups of 2-6 same-class instances with property subsets spelled through canonical / alias / serializes-as / legacy names: (1) if each serializes alone the group "
             "must serialize in every sibling permutation (all n! up to 4, 24 sampled beyond); (2) after read-back each instance shows its own (migrated where legacy) values and database "
             "defaults / neutral values for what it lacked; (3) what it shows for a lacked property must not change when only the siblings' values change; (4) in files mixing 2-7 instances of related classes every instance reads back what it reads back from a file of its own class only; "
-            "(5) every property whose inheriting classes disagree on the database default x all 24 orders of set / lacking instances of two such classes. The two pairs of canonical "
+            "(5) every property whose inheriting classes disagree on the database default x all 24 orders of set / lacking instances of two such classes; (6) database-defaults: every (class, canonical property) of the database with a default, stated on the class or inherited (about 6 500 pairs, both sibling orders), must read back that default - found by the harness's own walk up the class chain - for the instance that lacked it. The two pairs of canonical "
             "properties that share one serialized name in the bundled database are open findings with exhaustive probes.",
             "trusts: PropertyMigration::perform and the BrickColor palette as the definition of a migrated value (their cross-path agreement is C15's subject)",
             "DESIGN.md 2/C08"),
@@ -82,13 +82,13 @@ CHECKS = {
             "model-based (stateful) property testing: lock-step diff of the real DOMs against a reference model after every operation",
             "Same histories as C09; after every step every DOM is compared instance by instance (referent, parent, child order, name, class, properties, instance set) "
             "with a plain ordered-tree model executing the documented meaning of the step (a UniqueId that changes without a collision is reported here as well as under C12). Builders are spelled through every builder API variant; start trees of up to 12 001 (thorough 70 001) instances; "
-            "transfer / transfer_within on a chain of 100 000 nested instances in a child process.",
+            "transfer / transfer_within on a chain of 100 000 nested instances in a child process. Rootless sub-check: histories over a rooted DOM and a WeakDom::default() that holds parentless trees (inserts under the null parent, transfers in and out, clones into it, clone_within on it, destroy), diffed against a second, separate reference model.",
             "trusts: the reference model (about 300 lines, documented semantics only)",
             "DESIGN.md 2/C09-C12"),
     "C11": ("exploration",
             "model-based property testing of clone operations inside generated histories (isomorphism + three-way Ref rule oracle)",
             "Every clone_within / clone_into_external / clone_multiple_into_external inside the C09 histories is bound to its source by a parallel walk and checked for "
-            "fresh referents, parentless roots, identical shape/order/names/classes/properties, Refs rewritten by the documented three-way rule, and an untouched source. The three clone operations also run on a chain of 100 000 nested instances in a child process.",
+            "fresh referents, parentless roots, identical shape/order/names/classes/properties, Refs rewritten by the documented three-way rule, and an untouched source. The three clone operations also run on a chain of 100 000 nested instances in a child process. Rootless sub-check: clones into / within / out of a DOM without a root that already holds instances, with Ref properties set across both DOMs (own small reference model).",
             "trusts: the reference model's three-way rule taken from the doc comments of clone_into_external / clone_multiple_into_external",
             "DESIGN.md 2/C09-C12"),
     "C12": ("exploration",
@@ -120,7 +120,7 @@ CHECKS = {
             "Every Migrate property of the database x inheriting classes x every legacy value (all Enum.Font items, all BrickColor numbers, both booleans, a URI pool) x {new property absent, "
             "explicit value with either encounter order} goes through write-binary, write-XML, read-binary (legacy column from the reference encoder) and read-XML (legacy element from the reference "
             "generator); every path must yield exactly the new property with the tabulated / migrated value, an explicit value must win, the legacy name must not survive. Enum.Font items without a "
-            "migration are open findings. Context sub-check: the migrating instance is placed under a same-class parent that migrates too, after another class that sets the new property, two levels deep, between same-class siblings - "
+            "migration are open findings. Context sub-check: the migrating instance is placed under a same-class parent that migrates too, after another class that sets the new property, two levels deep, between same-class siblings, between same-class siblings whose own legacy value the migration rejects - "
             "through every path it must show what it shows alone.",
             "trusts: PropertyMigration::perform for the font table (agreement across paths is what is checked), BrickColor::to_color3uint8 as the database's colour table",
             "DESIGN.md 2/C15"),
@@ -136,7 +136,7 @@ CHECKS = {
             "DESIGN.md 2/C16"),
     "C17": ("exploration",
             "property-based round-trip testing through 7 serde codecs and the text forms; exhaustive u16 / u8 sweeps; fixed list of long values; independent base64 wire-form oracle; fixture replay of allValues.json",
-            "Generated values of all 40 Variant variants go through serde_json (str, slice, reader, Value), bincode and rmp_serde (named, compact) and must come back bit-identical (byte strings also compared with an own RFC 4648 encoder; long values with lengths around every power of two from 2^8 to 2^17 and 10^6; reader-based entry points incl. a one-byte-per-read source; decoding after rejected documents on the same thread); Ref and "
+            "Generated values of all 40 Variant variants go through serde_json (str, slice, reader, Value), bincode and rmp_serde (named, compact) and must come back bit-identical (byte strings also compared with an own RFC 4648 encoder; long values with lengths around every power of two from 2^8 to 2^17 and 10^6; reader-based entry points incl. a one-byte-per-read source; decoding after rejected documents and after failed or panicking writes on the same thread); Ref and "
             "UniqueId go through Display/FromStr; every u16 BrickColor number and every Faces / Axes byte is enumerated; Tags and MaterialColors blobs are converted both ways; each sample of "
             "rbx_dom_lua/src/allValues.json must decode to its stated type and re-encode to the same JSON.",
             "trusts: serde_json (float_roundtrip), bincode, rmp_serde as correct transports",
@@ -148,7 +148,7 @@ CHECKS = {
             "(bytes, ==, hash, shared buffer), and at quiescence the table must hold no entry of the case. All schedules of all pairs of 2-operation (quick) / 3-operation and triples of "
             "2-operation (thorough) programs are enumerated exhaustively. Free-running part: 16 threads churn (create and drop) four contents so that reference counts cross zero under contention, with checker threads comparing "
             "buffers of back-to-back handles, panics captured per thread and a poisoned-table probe; then a mixed new/clone/drop phase. Single-threaded API sequences (new / clone / clone_from / assignment / drop / Vec::clone_from, "
-            "optionally next to 1000-2600 other live contents) are generated and checked with the same oracles.",
+            "optionally next to 1000-2600 other live contents) are generated and checked with the same oracles. Content-sizes list: for every length around each power of two from 2^8 to 2^22 (thorough 2^26), eight contents differing in one byte or one byte of length are alive together and must stay distinct, share buffers per content and leave no table entry.",
             "trusts: std's Arc/Mutex; schedules are controlled at exactly the granularity the property names; the free-running part is a stress sample",
             "DESIGN.md 2/C18"),
 }
